@@ -8,6 +8,7 @@ import Mathlib.Data.List.Perm.Basic
 import Mathlib.Data.List.Perm.Subperm
 import Mathlib.Data.List.Nodup
 import Mathlib.Data.List.Pairwise
+import Mathlib.Data.List.Sort
 
 namespace IrisVerif.Blazer
 
@@ -1056,7 +1057,8 @@ theorem exists_min_rank (rank : Nat → Nat) {l : List Nat} (hl : l ≠ []) :
   | cons a t ih =>
     by_cases ht : t = []
     · subst ht
-      exact ⟨a, List.mem_cons_self, fun x hx => by rw [List.mem_singleton.1 hx]; exact Nat.le_refl _⟩
+      exact ⟨a, List.mem_cons_self, fun x hx => by
+        have := List.mem_singleton.1 hx; subst this; exact Nat.le_refl _⟩
     · obtain ⟨r, hr, hmin⟩ := ih ht
       by_cases hra : rank r ≤ rank a
       · exact ⟨r, List.mem_cons_of_mem _ hr, fun x hx => by
@@ -1162,6 +1164,416 @@ theorem strict_order_perm_of_valid_order (m : SModel) (hu : (m.map (·.lhs)).Nod
   have := hs.rows_perm
   rw [hri_nil, List.append_nil] at this
   exact this
+
+/-! ## ids, re-labelling (round 4) -/
+
+
+/-! ### `sorted(...)` -/
+
+theorem insertSorted_eq (x : Int) (l : List Int) : insertSorted x l = l.orderedInsert (· ≤ ·) x := by
+  induction l with
+  | nil => rfl
+  | cons y ys ih =>
+    simp only [insertSorted, List.orderedInsert]
+    split <;> simp_all
+
+theorem sortInts_eq (l : List Int) : sortInts l = l.insertionSort (· ≤ ·) := by
+  induction l with
+  | nil => rfl
+  | cons x xs ih =>
+    have : sortInts (x :: xs) = insertSorted x (sortInts xs) := rfl
+    rw [this, ih, insertSorted_eq]; rfl
+
+theorem sortInts_perm (l : List Int) : (sortInts l).Perm l := by
+  rw [sortInts_eq]; exact List.perm_insertionSort _ l
+
+theorem sortInts_congr {l₁ l₂ : List Int} (h : l₁.Perm l₂) : sortInts l₁ = sortInts l₂ := by
+  rw [sortInts_eq, sortInts_eq]
+  exact List.Perm.eq_of_pairwise' (r := (· ≤ ·)) (List.pairwise_insertionSort _ l₁)
+    (List.pairwise_insertionSort _ l₂)
+    ((List.perm_insertionSort _ l₁).trans (h.trans (List.perm_insertionSort _ l₂).symm))
+
+theorem sortInts_map_sortInts (f : Int → Int) (l : List Int) :
+    sortInts ((sortInts l).map f) = sortInts (l.map f) :=
+  sortInts_congr ((sortInts_perm l).map f)
+
+
+/-! ### positions stay in range (no hypothesis on the matrix) -/
+
+/-- what one level / the whole of `prefetch` returns consists of positions it was given -/
+structure PreMem (ri ci : List Nat) (p : Pre) : Prop where
+  pairs : ∀ q ∈ p.first ++ p.last, q.1 ∈ ri ∧ q.2 ∈ ci
+  rows : ∀ x ∈ p.ri, x ∈ ri
+  cols : ∀ x ∈ p.ci, x ∈ ci
+
+theorem step1_mem (im : Inc) (ri ci : List Nat) : PreMem ri ci (step1 im ri ci) := by
+  refine ⟨?_, ?_, ?_⟩
+  · intro q hq
+    simp only [step1] at hq
+    rcases List.mem_append.1 hq with hq | hq
+    · obtain ⟨h1, h2⟩ := mem_firstPairs.1 hq
+      exact ⟨h1, (rowCols_single h2).1⟩
+    · obtain ⟨h1, h2⟩ := mem_lastPairs.1 hq
+      exact ⟨(mem_removeAll.1 (colRows_single h2).1).1, (mem_removeAll.1 h1).1⟩
+  · intro x hx
+    simp only [step1] at hx
+    exact (mem_removeAll.1 (mem_removeAll.1 hx).1).1
+  · intro x hx
+    simp only [step1] at hx
+    exact (mem_removeAll.1 (mem_removeAll.1 hx).1).1
+
+theorem prefetch_mem (im : Inc) : ∀ (n : Nat) (ri ci : List Nat), ri.length * ci.length = n →
+    PreMem ri ci (prefetch im ri ci) := by
+  intro n
+  induction n using Nat.strongRecOn with
+  | _ n ih =>
+    intro ri ci hn
+    have hs := step1_mem im ri ci
+    rw [prefetch_eq]
+    split
+    · rename_i h
+      have hp := ih _ (hn ▸ h) _ _ rfl
+      refine ⟨?_, fun x hx => hs.rows x (hp.rows x hx), fun x hx => hs.cols x (hp.cols x hx)⟩
+      intro q hq
+      simp only [List.mem_append] at hq
+      rcases hq with (hq | hq) | (hq | hq)
+      · exact hs.pairs q (List.mem_append_left _ hq)
+      · have := hp.pairs q (List.mem_append_left _ hq)
+        exact ⟨hs.rows _ this.1, hs.cols _ this.2⟩
+      · have := hp.pairs q (List.mem_append_right _ hq)
+        exact ⟨hs.rows _ this.1, hs.cols _ this.2⟩
+      · exact hs.pairs q (List.mem_append_right _ hq)
+    · exact hs
+
+theorem mem_applyPerm {p l : List Nat} {x : Nat} (h : x ∈ applyPerm p l) : x ∈ l := by
+  simp only [applyPerm, List.mem_filterMap] at h
+  obtain ⟨i, _, hi⟩ := h
+  exact List.mem_of_getElem? hi
+
+theorem genInner_mem (im : Inc) : ∀ (n : Nat) (ri ci : List Nat) (bs : List Block), ri.length = n →
+    genInner im ri ci = .ok bs → ∀ b ∈ bs, (∀ r ∈ b.1, r ∈ ri) ∧ (∀ c ∈ b.2, c ∈ ci) := by
+  intro n
+  induction n using Nat.strongRecOn with
+  | _ n ih =>
+    intro ri ci bs hn hgen
+    rw [genInner_eq] at hgen
+    split at hgen
+    · simp only [Except.ok.injEq] at hgen; subst hgen; simp
+    · cases hfc : findCut im ri ci with
+      | none => simp [hfc] at hgen
+      | some i =>
+        simp only [hfc] at hgen
+        have hi := findCut_pos hfc
+        cases hrest : genInner im (ri.drop i) (ci.drop i) with
+        | error e => simp [hrest] at hgen
+        | ok rest =>
+          simp only [hrest, Except.ok.injEq] at hgen
+          subst hgen
+          have hih := ih (n - i) (by omega) (ri.drop i) (ci.drop i) rest
+            (by simp only [List.length_drop]; omega) hrest
+          intro b hb
+          rcases List.mem_cons.1 hb with rfl | hb
+          · exact ⟨fun r hr => List.mem_of_mem_take hr, fun c hc => List.mem_of_mem_take hc⟩
+          · exact ⟨fun r hr => List.mem_of_mem_drop ((hih b hb).1 r hr),
+              fun c hc => List.mem_of_mem_drop ((hih b hb).2 c hc)⟩
+
+/-- every position in a block returned by `blaze` is a row `< nr` resp. a column `< nc` -/
+theorem blazePos_mem (im : Inc) (nr nc : Nat) (rp cp : List Nat) (o : BlazeOut)
+    (h : blazePos im nr nc rp cp = .ok o) :
+    ∀ b ∈ o.blocks, (∀ r ∈ b.1, r < nr) ∧ (∀ c ∈ b.2, c < nc) := by
+  have hm := prefetch_mem im _ (List.range nr) (List.range nc) rfl
+  unfold blazePos at h
+  generalize prefetch im (List.range nr) (List.range nc) = p at *
+  simp only [] at h
+  generalize hri' : (if p.ri.length * p.ci.length ≠ 0 then applyPerm rp p.ri else p.ri) = ri' at h
+  generalize hci' : (if p.ri.length * p.ci.length ≠ 0 then applyPerm cp p.ci else p.ci) = ci' at h
+  have hr : ∀ x ∈ ri', x ∈ p.ri := by
+    intro x hx; rw [← hri'] at hx; split at hx
+    · exact mem_applyPerm hx
+    · exact hx
+  have hc : ∀ x ∈ ci', x ∈ p.ci := by
+    intro x hx; rw [← hci'] at hx; split at hx
+    · exact mem_applyPerm hx
+    · exact hx
+  cases hgen : genInner im ri' ci' with
+  | error e => rw [hgen] at h; simp at h
+  | ok inner =>
+    rw [hgen] at h
+    simp only [Except.ok.injEq] at h
+    subst h
+    have hin := genInner_mem im _ ri' ci' inner rfl hgen
+    intro b hb
+    simp only [List.mem_append] at hb
+    rcases hb with (hb | hb) | hb
+    · obtain ⟨q, hq, rfl⟩ := mem_singles.1 hb
+      have := hm.pairs q (List.mem_append_left _ hq)
+      exact ⟨fun r hr => by rw [List.mem_singleton.1 hr]; exact List.mem_range.1 this.1,
+        fun c hc => by rw [List.mem_singleton.1 hc]; exact List.mem_range.1 this.2⟩
+    · exact ⟨fun r hr' => List.mem_range.1 (hm.rows _ (hr _ ((hin b hb).1 r hr'))),
+        fun c hc' => List.mem_range.1 (hm.cols _ (hc _ ((hin b hb).2 c hc')))⟩
+    · obtain ⟨q, hq, rfl⟩ := mem_singles.1 hb
+      have := hm.pairs q (List.mem_append_right _ hq)
+      exact ⟨fun r hr => by rw [List.mem_singleton.1 hr]; exact List.mem_range.1 this.1,
+        fun c hc => by rw [List.mem_singleton.1 hc]; exact List.mem_range.1 this.2⟩
+
+/-! ### ids -/
+
+theorem idAt_map (f : Int → Int) (ids : List Int) {i : Nat} (hi : i < ids.length) :
+    idAt (ids.map f) i = f (idAt ids i) := by
+  simp [idAt, List.getD_eq_getElem?_getD, List.getElem?_eq_getElem hi, hi]
+
+theorem labelBlock_map (f g : Int → Int) (eids qids : List Int) (b : Block)
+    (hr : ∀ r ∈ b.1, r < eids.length) (hc : ∀ c ∈ b.2, c < qids.length) :
+    labelBlock (eids.map f) (qids.map g) b = relabelBlock f g (labelBlock eids qids b) := by
+  simp only [labelBlock, relabelBlock, sortInts_map_sortInts, List.map_map]
+  congr 2
+  · exact List.map_congr_left fun r hr' => idAt_map f eids (hr r hr')
+  · exact List.map_congr_left fun c hc' => idAt_map g qids (hc c hc')
+
+/-- **Equivariance.** `blaze` commutes with any re-labelling of the equation ids and of the quantity
+ids (no hypothesis on the matrix, on the maps or on the heuristic's permutations): the decomposition
+is a function of the incidence *pattern*, and the ids of the caller are attached afterwards.  This is
+why a result remembered per pattern must have the *current* ids re-applied. -/
+theorem blaze_relabel (f g : Int → Int) (m : List (List Bool)) (eids qids : List Int) (rp cp : List Nat) :
+    blaze m (eids.map f) (qids.map g) rp cp =
+      (blaze m eids qids rp cp).map fun bs => bs.map (relabelBlock f g) := by
+  unfold blaze
+  simp only [List.length_map]
+  split
+  · rfl
+  · cases hb : blazePos (incOf m) eids.length qids.length rp cp with
+    | error e => rfl
+    | ok o =>
+      simp only [Except.map, List.map_map]
+      congr 1
+      apply List.map_congr_left
+      intro b hb'
+      have := blazePos_mem _ _ _ _ _ o hb b hb'
+      exact labelBlock_map f g eids qids b this.1 this.2
+
+
+theorem map_idAt_range (ids : List Int) : (List.range ids.length).map (idAt ids) = ids := by
+  apply List.ext_getElem (by simp)
+  intro i h1 h2
+  simp [idAt, List.getD_eq_getElem?_getD, h2]
+
+/-- incidence between an equation id and a quantity id -/
+def IncId (m : List (List Bool)) (eids qids : List Int) (e q : Int) : Prop :=
+  ∃ i j, eids[i]? = some e ∧ qids[j]? = some q ∧ incOf m i j = true
+
+/-- what the property says about `blaze(im, eids, qids)`, at the level of ids -/
+structure BlazeIdSpec (m : List (List Bool)) (eids qids : List Int) (bs : List (List Int × List Int)) : Prop where
+  eids_perm : (bs.flatMap (·.1)).Perm eids
+  qids_perm : (bs.flatMap (·.2)).Perm qids
+  square : ∀ b ∈ bs, b.1.length = b.2.length
+  lbt : eids.Nodup → qids.Nodup →
+    bs.Pairwise fun b b' => ∀ e ∈ b.1, ∀ q ∈ b'.2, ¬ IncId m eids qids e q
+  pm : ∀ b ∈ bs, ∃ pb : Block, b = labelBlock eids qids pb ∧ HasPerfectMatching (incOf m) pb.1 pb.2
+
+theorem blaze_id_spec (m : List (List Bool)) (eids qids : List Int) (rp cp : List Nat) (n : Nat)
+    (he : eids.length = n) (hq : qids.length = n) (hm : m.length = n) (hrow : ∀ row ∈ m, row.length = n)
+    (hpm : HasPerfectMatching (incOf m) (List.range n) (List.range n))
+    (hrp : rp.Perm (List.range (prefetch (incOf m) (List.range n) (List.range n)).ri.length))
+    (hcp : cp.Perm (List.range (prefetch (incOf m) (List.range n) (List.range n)).ci.length)) :
+    ∃ bs, blaze m eids qids rp cp = .ok bs ∧ BlazeIdSpec m eids qids bs := by
+  obtain ⟨o, ho, hs⟩ := blazePos_spec (incOf m) n rp cp hpm hrp hcp
+  have hshape : ¬ (m.length ≠ eids.length ∨ m.any (fun row => row.length != qids.length) = true) := by
+    rintro (h | h)
+    · exact h (by omega)
+    · obtain ⟨row, hr, hne⟩ := List.any_eq_true.1 h
+      have := hrow row hr
+      simp [this, hq] at hne
+  have hblaze : blaze m eids qids rp cp = .ok (o.blocks.map (labelBlock eids qids)) := by
+    unfold blaze
+    rw [if_neg hshape, he, hq, ho]
+  have hmem := blazePos_mem _ _ _ _ _ o ho
+  refine ⟨_, hblaze, ⟨?_, ?_, ?_, ?_, ?_⟩⟩
+  · rw [List.flatMap_map]
+    have h1 : (o.blocks.flatMap fun b => (labelBlock eids qids b).1).Perm
+        (o.blocks.flatMap fun b => b.1.map (idAt eids)) :=
+      List.Perm.flatMap_left _ fun b _ => sortInts_perm _
+    have h2 : (o.blocks.flatMap fun b => b.1.map (idAt eids)) = (blockRows o.blocks).map (idAt eids) := by
+      simp [blockRows, List.map_flatMap]
+    rw [h2] at h1
+    have h3 := hs.rows_perm.map (idAt eids)
+    rw [← he, map_idAt_range] at h3
+    exact h1.trans h3
+  · rw [List.flatMap_map]
+    have h1 : (o.blocks.flatMap fun b => (labelBlock eids qids b).2).Perm
+        (o.blocks.flatMap fun b => b.2.map (idAt qids)) :=
+      List.Perm.flatMap_left _ fun b _ => sortInts_perm _
+    have h2 : (o.blocks.flatMap fun b => b.2.map (idAt qids)) = (blockCols o.blocks).map (idAt qids) := by
+      simp [blockCols, List.map_flatMap]
+    rw [h2] at h1
+    have h3 := hs.cols_perm.map (idAt qids)
+    rw [← hq, map_idAt_range] at h3
+    exact h1.trans h3
+  · intro b hb
+    obtain ⟨pb, hpb, rfl⟩ := List.mem_map.1 hb
+    simp only [labelBlock, (sortInts_perm _).length_eq, List.length_map]
+    exact hs.square pb hpb
+  · intro hne hnq
+    rw [List.pairwise_map]
+    refine List.Pairwise.imp_of_mem ?_ hs.lbt
+    intro a b ha hb hab e hea q hqb hinc
+    obtain ⟨i, j, hi, hj, hij⟩ := hinc
+    have hea' : e ∈ a.1.map (idAt eids) := (sortInts_perm _).subset hea
+    have hqb' : q ∈ b.2.map (idAt qids) := (sortInts_perm _).subset hqb
+    obtain ⟨r, hr, rfl⟩ := List.mem_map.1 hea'
+    obtain ⟨c, hc, rfl⟩ := List.mem_map.1 hqb'
+    have hrn : r < eids.length := by rw [he]; exact (hmem a ha).1 r hr
+    have hcn : c < qids.length := by rw [hq]; exact (hmem b hb).2 c hc
+    have hin : i < eids.length := (List.getElem?_eq_some_iff.1 hi).1
+    have hjn : j < qids.length := (List.getElem?_eq_some_iff.1 hj).1
+    have hir : i = r := by
+      apply (List.Nodup.getElem_inj_iff hne (hi := hin) (hj := hrn)).1
+      have := (List.getElem?_eq_some_iff.1 hi).2
+      simp [idAt, List.getD_eq_getElem?_getD, hrn] at this ⊢
+      exact this
+    have hjc : j = c := by
+      apply (List.Nodup.getElem_inj_iff hnq (hi := hjn) (hj := hcn)).1
+      have := (List.getElem?_eq_some_iff.1 hj).2
+      simp [idAt, List.getD_eq_getElem?_getD, hcn] at this ⊢
+      exact this
+    subst hir hjc
+    have := hab i hr j hc
+    rw [hij] at this
+    exact absurd this (by simp)
+  · intro b hb
+    obtain ⟨pb, hpb, rfl⟩ := List.mem_map.1 hb
+    exact ⟨pb, rfl, hs.pm pb hpb⟩
+
+
+/-! ## executable validity, unique names (round 4) -/
+
+theorem seqValidB_iff (m : SModel) : seqValidB m = true ↔ SeqValid m := by
+  unfold seqValidB SeqValid
+  simp only [List.all_eq_true, List.mem_range]
+  constructor
+  · intro h k hk v hv hvl
+    have := h k hk
+    rw [List.getElem?_eq_getElem hk] at this
+    simp only [List.all_eq_true] at this
+    have := this v hv
+    simp only [Bool.or_eq_true, Bool.not_eq_true', beq_iff_eq, List.contains_iff_mem] at this
+    rcases this with (h1 | h1) | h1
+    · have : (m.map (·.lhs)).contains v = true := List.contains_iff_mem.2 hvl
+      rw [h1] at this; exact absurd this (by simp)
+    · exact Or.inl h1
+    · right
+      obtain ⟨e, he, rfl⟩ := List.mem_map.1 h1
+      obtain ⟨j, hj, rfl⟩ := List.mem_take_iff_getElem.1 he
+      exact ⟨j, by omega, by omega, rfl⟩
+  · intro h k hk
+    rw [List.getElem?_eq_getElem hk]
+    simp only [List.all_eq_true]
+    intro v hv
+    simp only [Bool.or_eq_true, Bool.not_eq_true', beq_iff_eq, List.contains_iff_mem]
+    by_cases hvl : v ∈ m.map (·.lhs)
+    · rcases h k hk v hv hvl with h1 | ⟨j, hj, hjk, rfl⟩
+      · exact Or.inl (Or.inr h1)
+      · right
+        exact List.mem_map.2 ⟨m[j], List.mem_take_iff_getElem.2 ⟨j, by omega, rfl⟩, rfl⟩
+    · left; left
+      cases hc : (m.map (·.lhs)).contains v with
+      | false => rfl
+      | true => exact absurd (List.contains_iff_mem.1 hc) hvl
+
+instance (m : SModel) : Decidable (SeqValid m) := decidable_of_iff _ (seqValidB_iff m)
+
+/-! dedup -/
+theorem mem_dedup {l : List Nat} {x : Nat} : x ∈ dedup l ↔ x ∈ l := by
+  induction l with
+  | nil => simp [dedup]
+  | cons a t ih =>
+    simp only [dedup, List.mem_cons, List.mem_filter, ih]
+    constructor
+    · rintro (h | ⟨h, _⟩)
+      · exact Or.inl h
+      · exact Or.inr h
+    · rintro (h | h)
+      · exact Or.inl h
+      · by_cases hxa : x = a
+        · exact Or.inl hxa
+        · exact Or.inr ⟨h, by simpa using hxa⟩
+
+theorem dedup_nodup (l : List Nat) : (dedup l).Nodup := by
+  induction l with
+  | nil => simp [dedup]
+  | cons a t ih =>
+    simp only [dedup, List.nodup_cons, List.mem_filter]
+    exact ⟨fun h => by simpa using h.2, ih.filter _⟩
+
+theorem dedup_length_le (l : List Nat) : (dedup l).length ≤ l.length := by
+  induction l with
+  | nil => simp [dedup]
+  | cons a t ih =>
+    simp only [dedup, List.length_cons]
+    have := List.length_filter_le (fun y => y != a) (dedup t)
+    omega
+
+theorem dedup_length_eq_iff (l : List Nat) : (dedup l).length = l.length ↔ l.Nodup := by
+  constructor
+  · intro h
+    induction l with
+    | nil => exact List.nodup_nil
+    | cons a t ih =>
+      simp only [dedup, List.length_cons] at h
+      have h1 := List.length_filter_le (fun y => y != a) (dedup t)
+      have h2 := dedup_length_le t
+      have hf : ((dedup t).filter fun y => y != a).length = (dedup t).length := by omega
+      have ht : (dedup t).length = t.length := by omega
+      rw [List.nodup_cons]
+      refine ⟨fun ha => ?_, ih ht⟩
+      have := List.length_filter_eq_length_iff.1 hf a (mem_dedup.2 ha)
+      simp at this
+  · intro h; rw [dedup_of_nodup h]
+
+
+
+/-! ### the unknowns of `split_into_blocks` -/
+
+theorem mem_dedupI {l : List Int} {x : Int} : x ∈ dedupI l ↔ x ∈ l := by
+  induction l with
+  | nil => simp [dedupI]
+  | cons a t ih =>
+    simp only [dedupI, List.mem_cons, List.mem_filter, ih]
+    constructor
+    · rintro (h | ⟨h, _⟩)
+      · exact Or.inl h
+      · exact Or.inr h
+    · rintro (h | h)
+      · exact Or.inl h
+      · by_cases hxa : x = a
+        · exact Or.inl hxa
+        · exact Or.inr ⟨h, by simpa using hxa⟩
+
+theorem dedupI_nodup (l : List Int) : (dedupI l).Nodup := by
+  induction l with
+  | nil => simp [dedupI]
+  | cons a t ih =>
+    simp only [dedupI, List.nodup_cons, List.mem_filter]
+    exact ⟨fun h => by simpa using h.2, ih.filter _⟩
+
+/-- the unknowns: can be exogenized and is not exogenized by the plan, or is endogenized by the plan -/
+theorem mem_wrtQids {c x e : List Int} {q : Int} :
+    q ∈ wrtQids c x e ↔ (q ∈ c ∧ q ∉ x) ∨ q ∈ e := by
+  unfold wrtQids
+  rw [(sortInts_perm _).mem_iff, mem_dedupI, List.mem_append, List.mem_filter]
+  simp
+
+theorem wrtQids_nodup (c x e : List Int) : (wrtQids c x e).Nodup :=
+  ((sortInts_perm _).nodup_iff).2 (dedupI_nodup _)
+
+theorem steadyInc_length (t : List (List Int)) (w : List Int) : (steadyInc t w).length = t.length := by
+  simp [steadyInc]
+
+theorem steadyInc_row_length (t : List (List Int)) (w : List Int) :
+    ∀ row ∈ steadyInc t w, row.length = w.length := by
+  intro row h
+  simp only [steadyInc, List.mem_map] at h
+  obtain ⟨_, _, rfl⟩ := h
+  simp
 
 /-! ### a worked example (used for the non-vacuity `example`s of Props/C16.lean) -/
 
